@@ -232,10 +232,13 @@ def _recv_stream(case):
             toks = _tokens(m['sig'], m['trees'])
             trees = _replace_tokens(m['sig'], m['trees'], _Counter())
             f = {R.FIELD_CODE[k]: v for k, v in m['fields'].items()}
-            if toks:
-                f[9] = len(toks)
+            # descriptors the message declares and carries without any argument referring to them (legal: the header
+            # count says how many travel with the message, the body need not use them all - or may be absent)
+            spare = list(m.get('spare') or [])
+            if toks or spare:
+                f[9] = len(toks) + len(spare)
             raw = R.encode_message(m['type'], m['serial'], f, m['sig'], trees, m['little'])
-            out.append((raw, toks))
+            out.append((raw, toks + spare))
         else:
             out.append((S.ref_message_bytes(m, m['little']), []))
     return out
@@ -417,7 +420,14 @@ def recv_msg(draw, tok_base):
     m = {'type': t, 'fields': fields, 'sig': sig, 'trees': trees, 'pres': [],
          'no_reply': False, 'no_auto': False, 'serial': draw(st.integers(1, 2**32 - 1)), 'nh': nh,
          'little': draw(st.booleans())}
-    return m, nh
+    nspare = draw(st.sampled_from([0, 0, 0, 1, 2]))
+    if nspare:
+        m['spare'] = [tok_base + nh + i for i in range(nspare)]
+        if draw(st.booleans()):
+            m['sig'], m['trees'], m['nh'] = '', [], 0       # no body at all: only the header speaks of descriptors
+            m['spare'] = [tok_base + i for i in range(nspare)]
+            return m, nspare
+    return m, nh + nspare
 
 
 @st.composite
